@@ -109,3 +109,54 @@ func VerifC04Header() {
 	verifAssert(back.UnmarshalBinary(b2) == nil && len(back.KeyVals) == 1 && len(back.KeyVals[0].Key) == 255 && len(back.KeyVals[0].Value) == 255, "C04.header: maximal pair round trip")
 	verifReach("end")
 }
+
+// C04.header.max — "metadata of any allowed shape": the largest metadata the builder accepts
+// (indexmeta.MaxNumKVs pairs of maximal key and value length, and the neighbouring shapes) yields a
+// header that Open accepts and reads back unchanged. Contents are concrete (one symbolic byte per
+// pair would not change any length decision); the claim is about the length arithmetic.
+func VerifC04HeaderMax() {
+	shapes := [][3]int{ // pairs, key length, value length
+		{indexmeta.MaxNumKVs, indexmeta.MaxKeySize, indexmeta.MaxValueSize},
+		{indexmeta.MaxNumKVs, 0, 0},
+		{indexmeta.MaxNumKVs - 1, indexmeta.MaxKeySize, indexmeta.MaxValueSize},
+		{1, indexmeta.MaxKeySize, indexmeta.MaxValueSize},
+		{indexmeta.MaxNumKVs, indexmeta.MaxKeySize, 0},
+	}
+	sh := shapes[verifChoice("shape", len(shapes))]
+	h := &Header{ValueSize: 36, NumBuckets: 1, Metadata: &indexmeta.Meta{}}
+	for i := 0; i < sh[0]; i++ {
+		k := make([]byte, sh[1])
+		v := make([]byte, sh[2])
+		if len(k) > 0 {
+			k[0] = byte(i)
+		}
+		if len(v) > 0 {
+			v[len(v)-1] = byte(i + 1)
+		}
+		verifAssert(h.Metadata.Add(k, v) == nil, "C04.header.max: Metadata.Add rejected an allowed pair")
+	}
+	verifAssert(h.Metadata.Add([]byte{1}, []byte{2}) != nil || sh[0] < indexmeta.MaxNumKVs, "C04.header.max: more than MaxNumKVs pairs accepted")
+	img := h.Bytes()
+	path := verifTempPath("hdrmax.idx")
+	f, err := os.OpenFile(path, os.O_CREATE|os.O_RDWR|os.O_TRUNC, 0o666)
+	verifAssert(err == nil, "C04.header.max: create")
+	_, err = f.Write(img)
+	verifAssert(err == nil, "C04.header.max: write")
+	bh := BucketHeader{HashDomain: 1, NumEntries: 0, HashLen: HashSize, FileOffset: uint64(len(img)) + bucketHdrLen}
+	bh.headerSize = int64(len(img))
+	verifAssert(bh.writeTo(f, 0) == nil, "C04.header.max: bucket header write")
+	db, err := Open(f)
+	verifAssert(err == nil, "C04.header.max: Open rejects a header the builder produced (metadata of an allowed shape)")
+	if err == nil {
+		verifAssert(db.headerSize == int64(len(img)), "C04.header.max: header size")
+		verifAssert(len(db.Header.Metadata.KeyVals) == len(h.Metadata.KeyVals), "C04.header.max: number of metadata pairs")
+		same := true
+		for j := range h.Metadata.KeyVals {
+			same = same && bytes.Equal(db.Header.Metadata.KeyVals[j].Key, h.Metadata.KeyVals[j].Key) && bytes.Equal(db.Header.Metadata.KeyVals[j].Value, h.Metadata.KeyVals[j].Value)
+		}
+		verifAssert(same, "C04.header.max: metadata content")
+		_, lerr := db.Lookup([]byte("absent"))
+		verifAssert(lerr == ErrNotFound, "C04.header.max: lookup on the empty bucket")
+	}
+	verifReach("end")
+}
